@@ -23,6 +23,7 @@ type Surface struct {
 	ClientHasSec     bool
 	HandlerMethods   []Method
 	SecSourceMethods []Method
+	TypeNames        []string // exported non-interface named types
 }
 
 // Method is one interface method, rendered with the package qualifier "api.".
@@ -144,6 +145,9 @@ func InspectDir(dir, pkg string) (*Surface, error) {
 				for _, sp := range dd.Specs {
 					ts := sp.(*ast.TypeSpec)
 					it, isIface := ts.Type.(*ast.InterfaceType)
+					if !isIface && ast.IsExported(ts.Name.Name) && ts.TypeParams == nil {
+						s.TypeNames = append(s.TypeNames, ts.Name.Name)
+					}
 					switch ts.Name.Name {
 					case "SecurityHandler":
 						if isIface {
